@@ -293,7 +293,7 @@ Proof.
     destruct r; inversion H; subst; cbn; [reflexivity|discriminate].
 Qed.
 
-(* an accepted and admitted join grants exactly what GetPermission returned *)
+(* an accepted and let in join grants exactly what GetPermission returned *)
 Lemma joined_permissions : forall desc gname members c cr members' c',
   cl_group c = None -> cl_permissions c = [] ->
   handle_join desc gname members c cr = (members', c', JJoined) ->
